@@ -1,6 +1,7 @@
 import Vflow.Model.Mirror
 /-! line protocol: `mirror <ipfix|sflow> <src-hex> <dst dotted quad> <port> <max> <payload-hex|->`
-output: `<hex of the octets handed to Send> <hex of the 28 header octets>` or `panic` / `v6` -/
+output: `<hex of the octets handed to Send> <hex of the 28 header octets>` or `panic` / `v6`;
+the datagram is the second one of a worker's life (after the hook's primer) -/
 namespace Driver
 open Vflow Vflow.Mirror
 
@@ -18,8 +19,11 @@ def mirrorLine (proto src dst port max payload : String) : String :=
   match sport?, parseQuad dst, port.toNat?, max.toInt? with
   | some sport, some d, some p, some m =>
     let pl := if payload = "-" then [] else unhex payload
-    match assembleFrom sport m (unhex src) d p pl with
-    | .ok pkt => hex pkt ++ " " ++ hex (pkt.take 28)
+    -- the hook sends a primer through the same worker first (source ::ffff:10.9.8.7, max-28 octets of 0xaa)
+    let primer : Bytes × Bytes := (mapped [10, 9, 8, 7], List.replicate (m - 28).toNat 0xaa)
+    match mirrorSeq sport m d p [primer, (unhex src, pl)] with
+    | .ok [_, pkt] => hex pkt ++ " " ++ hex (pkt.take 28)
+    | .ok _ => "bad-op"
     | .panic _ => "panic"
     | .v6 => "v6"
   | _, _, _, _ => "bad-op"
